@@ -56,6 +56,8 @@ def shards(tier, seed):
             out.append(("pairs", nt, b, 4))
         out.append(("triples", nt))
         for b in range(2):
+            out.append(("spellpairs", nt, b, 2))
+        for b in range(2):
             out.append(("compound", nt, b, 2))
     nts = ("Fraction",) if tier == "quick" else ("Fraction", "float", "Decimal")
     for nt in nts:
@@ -219,6 +221,54 @@ def run_prefixes(acc, nt, block, nblocks):
     acc.sample({"clause": "prefixed-spelling", "nt": nt, "strings": ["kilo" + spellings[block], "µ" + spellings[block] + "s"]})
 
 
+# ----------------------------------------------------------------------------- (b2) several spellings of ONE unit in one container
+
+
+def run_spellpairs(acc, nt, block, nblocks):
+    """a unit may be written by its name, symbol, an alias, a plural or a prefixed form, and a CONTAINER may mix
+    them: {inch: 1} -> {in: 1} is the identity, {ft: 1, foot: 1} is a square foot"""
+    M = model()
+    ureg = regs.default(nt, fresh=True)
+    x = mag(nt)
+    names = [n for n in M.order if M.units[n].is_multiplicative and not n.startswith("delta_")]
+    for i, u in enumerate(names):
+        if i % nblocks != block:
+            continue
+        sp = [s for s in M.units[u].spellings() if s.isidentifier()]
+        extra = [u + "s", "kilo" + u]
+        sym = M.units[u].symbol
+        if sym and sym.isidentifier() and sym != u:
+            extra.append("k" + sym)
+        for e in extra:
+            rd = M.readings(e) if e not in M.spelling_table() else None
+            if rd and len(rd) == 1 and e not in sp:
+                sp.append(e)
+        r1 = M.root(u)
+        for s1 in sp:
+            for s2 in sp:
+                if s1 == s2:
+                    continue
+                acc.ev(3)
+                acc.nt(("spellpair", nt, s1, s2))
+                case = {"nt": nt, "unit": u, "spellings": [s1, s2], "x": str(x)}
+                m1, m2 = M.root_of_units({s1: 1}), M.root_of_units({s2: 1})
+                ratio = m1 / m2
+                want = ratio * defs.Mono(Fraction(x))
+                o = conv_out(lambda: ureg.convert(x, ureg.UnitsContainer({s1: 1}), ureg.UnitsContainer({s2: 1})))
+                if o[0] != "ok" or not close(o[1], want, nt):
+                    acc.violation(["spelling-pair", "convert(container, container)", "wrong-factor", nt], case, str(want.coef) if want.rational else str(want.dec(30)), o[1] if o[0] != "ok" else show(o[1]))
+                o = conv_out(lambda: ureg.Quantity(x, ureg.UnitsContainer({s1: 1})).to(ureg.UnitsContainer({s2: 1})).magnitude)
+                if o[0] != "ok" or not close(o[1], want, nt):
+                    acc.violation(["spelling-pair", "Quantity.to(container)", "wrong-factor", nt], case, str(want.coef) if want.rational else str(want.dec(30)), o[1] if o[0] != "ok" else show(o[1]))
+                both = m1 * m2
+                o = conv_out(lambda: ureg.get_root_units(ureg.UnitsContainer({s1: 1, s2: 1})))
+                ok = o[0] == "ok" and {k: Fraction(v) for k, v in dict(o[1][1]._units).items()} == both.units and close(o[1][0], defs.Mono(both.coef, None, both.rad, both.frac_step), nt)
+                if not ok:
+                    acc.violation(["spelling-pair", "get_root_units(container)", "two-spellings-of-one-unit-not-accumulated", nt], case, [str(both.coef), {k: str(v) for k, v in both.units.items()}], repr(o[1])[:160])
+        acc.outcome("spellings=" + str(min(len(sp), 6)))
+    acc.sample({"clause": "spelling-pair", "nt": nt, "unit": "inch", "spellings": ["inch", "in", "inches", "kiloinch", "kin"]})
+
+
 # ----------------------------------------------------------------------------- (c) triples
 
 
@@ -356,6 +406,8 @@ def run_shard(acc, shard, tier, seed):
         run_prefixes(acc, shard[1], shard[2], shard[3])
     elif k == "triples":
         run_triples(acc, shard[1], tier)
+    elif k == "spellpairs":
+        run_spellpairs(acc, shard[1], shard[2], shard[3])
     elif k == "compound":
         run_compound(acc, shard[1], shard[2], shard[3], tier)
     elif k == "generated":
@@ -384,6 +436,9 @@ def replay(rec):
             run_compound(acc, nt, b, 2, tier)
     elif site[0] == "generated":
         run_generated(acc)
+    elif site[0] == "spelling-pair":
+        for b in range(2):
+            run_spellpairs(acc, nt, b, 2)
     sites = {tuple(v["site"]) for v in acc.violations}
     return tuple(site) in sites, {"sites_seen": sorted(sites)[:20]}
 
